@@ -38,7 +38,7 @@ def main():
                     try:
                         with open(os.path.join(HERE, rp)) as fh:
                             j = json.load(fh)
-                        print("        ", (j.get("lines") or [j.get("obligation")])[:2])
+                        print("        ", str([str(x)[:160] for x in (j.get("lines") or [j.get("obligation")])[:2]]))
                     except Exception:
                         pass
     finally:
